@@ -354,6 +354,7 @@ class Ctx:
 
     # ---- violations -------------------------------------------------------
     def _match_known(self, component, kind, detail="", tags=()):
+        component = re.sub(r"\{[^{}]*\}$", "", component)     # "Name{non-default setting}" : findings of the base entry apply
         for f in self.known:
             if not ((f["component"] == component or (f.get("component_prefix") and component.startswith(f["component_prefix"]))) and f["kind"] == kind):
                 continue
